@@ -33,7 +33,7 @@ func TestCLIDump(t *testing.T) {
 		if rapid.IntRange(0, 3).Draw(rt, "bytelevel") == 0 {
 			src, class = inputs.Any(rt)
 		} else {
-			c := progs.Draw(rt, v, progs.Options(v), 1, 4)
+			c := progs.Draw(rt, v, progs.StructuralOptions(v), 1, 4)
 			src = append([]byte{}, c.G.Render(c.Root, progs.Policy(rt, phpgen.PolicyFull, nil)).Src...)
 		}
 		r := px.Parse(append([]byte{}, src...), v, true)
